@@ -141,7 +141,8 @@ DivModMAt(a, b, i, r) ==   \* returns <<quotient limbs (little endian), remainde
              q == QDigit(x, b, 0, B - 1)
              rest == DivModMAt(a, b, i - 1, SubM(x, TrimM(MulSmallM(b, q))))
          IN <<rest[1] \o <<q>>, rest[2]>>
-DivModM(a, b) == LET qr == DivModMAt(a, b, Len(a), <<>>) IN <<TrimM(qr[1]), qr[2]>>
+DivModM(a, b) == IF CmpM(a, b) < 0 THEN <<<<>>, a>>      \* fast path: quotient 0
+                 ELSE LET qr == DivModMAt(a, b, Len(a), <<>>) IN <<TrimM(qr[1]), qr[2]>>
 \* truncated division (C++ semantics), b # 0
 TruncDiv(a, b) == Mk(a.n # b.n, DivModM(a.m, b.m)[1])
 TruncRem(a, b) == Mk(a.n, DivModM(a.m, b.m)[2])
